@@ -16,7 +16,9 @@ RULE = ('cases = (01) MX lists of 1..9 entries, preferences drawn from a small s
         '254..256 octets), smtproutes.d holding random subsets of the probed names plus near-miss names, file contents with relay=/port= lines, '
         'duplicates, unknown keys, rejected lines in front of valid ones, port strings at 0/1/65535/65536/2^32+25/2^64+25/signs/garbage, relays that '
         'resolve, resolve to nothing or do not resolve, control/smtproutes with exact / suffix / empty / differently-cased / non-matching patterns, '
-        '0..3 colons; (05) the statement sequence of main(): filter on port 25, sort, connect. '
+        '0..3 colons; (05) the statement sequence of main(): filter on port 25, sort, connect; (06) ask_dnsmx of lib/qdns.c over a stubbed resolver: '
+        '0..5 MX records with tied preferences, 0 and 65535, names that resolve / resolve to nothing / fail temporarily, permanently, with ENOMEM, null MX, '
+        'dnsmx failing four ways; (07) getmxlist (real smtproute + ask_dnsmx) followed by the sequence of main() on configurations mixing all of the above. '
         'non-trivial = sort: at least two entries share a preference; connect: at least one failed attempt followed by another; '
         'filter: at least one address removed; route: a relay was chosen while several files or lines were candidates; distinct by case text')
 TRUSTED_BASE = [
@@ -26,15 +28,15 @@ TRUSTED_BASE = [
     'lib/dns_helpers.c produce coq/Gen/GenMx.v (special priorities, the 65536 threshold of tryconn, port 25 of the local-address filter, '
     'default port, port limit, fnbuf size and key table of smtproutes.c, IN_LOOPBACKNET and NAME_MAX via gcc -E) and check that main() runs '
     'getmxlist / filter_my_ips (port 25 only) / sortmx / connect_mx in this order',
-    'hand-written models coq/Model/Mx.v and coq/Model/MxRoute.v tied to lib/dns_helpers.c:sortmx, qremote/conn.c:tryconn, lib/ipme.c:filter_my_ips, '
-    'qremote/smtproutes.c:smtproute (+ lib/control.c:loadlistfd, lib/match.c:matchdomain as used by it) by the correspondence run '
+    'hand-written models coq/Model/Mx.v, MxRoute.v, MxDns.v tied to lib/dns_helpers.c:sortmx, qremote/conn.c:tryconn and getmxlist, lib/ipme.c:filter_my_ips, '
+    'qremote/smtproutes.c:smtproute (+ lib/control.c:loadlistfd, lib/match.c:matchdomain as used by it), lib/qdns.c:ask_dnsmx and ask_dnsaaaa by the correspondence run '
     '(differential testing, bounded by the generator)',
     'glibc qsort() is stable for the small address arrays (merge sort): the model sorts the addresses of an entry by a stable partition',
     'file system abstraction of the route model: openat() on smtproutes.d succeeds exactly for the names listed, ENAMETOOLONG above NAME_MAX; '
     'lloadfilefd() on clean content (no blanks, comments, NUL, backslash, CR) = split at LF and drop empty lines; libc strtoul/strcasecmp(C locale) as modelled',
     'extraction with ExtrOcamlBasic only (no Extract Constant); ocaml/glue.ml + ocaml/mx_driver.ml hex parsing/printing',
-    'C harness harness/mx_h.c: #include of the C files with socket/bind/connect/getifaddrs/freeifaddrs redirected, ask_dnsaaaa answered from the case, '
-    'err_confn as longjmp; op 05 repeats the four statements of qremote.c:main() (main itself cannot be included); gcc 12 -O1 ASan+UBSan vs. production build; IPV4ONLY undefined',
+    'C harness harness/mx_h.c: #include of the C files with socket/bind/connect/getifaddrs/freeifaddrs redirected, the resolver functions of '
+    'include/libowfatconn.h (dnsmx, dnsip6) answered from the case, err_confn / net_conn_shutdown as longjmp; op 05 repeats the four statements of qremote.c:main() (main itself cannot be included); gcc 12 -O1 ASan+UBSan vs. production build; IPV4ONLY undefined',
 ]
 ASSUMPTIONS = [
     'every MX entry has at least one address and the list is not empty (in6_to_ips asserts cnt > 0; getmxlist dies otherwise)',
@@ -43,7 +45,9 @@ ASSUMPTIONS = [
     'getifaddrs() reports the local addresses; when it fails filter_my_ips returns the list unchanged (by design of the C) and nothing is claimed',
     'smtproute: target name at most 254 octets, free of "/" and NUL, not "." or ".."; control files are clean text; only the keys relay= and port= of '
     'smtproutes.d files are modelled (clientcert, clientkey, outgoingip, outgoingip6 are outside); ask_dnsaaaa of the relay is an oracle table',
-    'DNS MX lookup (ask_dnsmx) and the glue in getmxlist()/connect_mx() are not modelled: the MX list is an input of the sort/connect theorems',
+    'the resolver (libowfat dnsmx/dnsip6 behind include/libowfatconn.h) is an oracle: MX records with 16-bit preferences in wire format, per name either addresses or '
+    'a temporary / permanent / out-of-memory failure; IPv4 addresses arrive v4-mapped from dnsip6',
+    'the target is not an address literal ("[...]" branch of getmxlist is not modelled); connect_mx() (greeting, EHLO, STARTTLS, DANE) is represented only by the number of tryconn calls',
 ]
 
 # ---------------------------------------------------------------- address pool
@@ -312,11 +316,14 @@ LEVEL_TEXT = ('Machine-checked Coq theorems over executable models of smtproute,
               'IPv6 before IPv4-only ones at equal preference and IPv6 addresses first inside an entry, and is stable; for every fresh list, every sequence of '
               'connect() outcomes and any number of tryconn calls the addresses are attempted once each in list order, a failed attempt is '
               'followed by the next address, and -ENOENT is answered only when all were attempted; filter_my_ips removes exactly the local '
-              'addresses; composed as in main() no local address is attempted on port 25. The models are tied to the C by a differential run under ASan/UBSan.')
+              'addresses; ask_dnsmx answers with a non-empty list of untried entries (exactly the resolvable MX records, implicit MX at 65536); getmxlist takes the '
+              'relay of the route if there is one and DNS otherwise, always with the port of the route; composed as in main() Qremote never crashes, tries the sorted '
+              'list once each in order and no local address is attempted on port 25. The models are tied to the C by a differential run under ASan/UBSan.')
 LEVEL_NOTE = ('Trusted: Coq kernel, translator regexes, extraction (ExtrOcamlBasic), harness, generator quality of the correspondence run, stability of glibc qsort, '
               'the file-system / lloadfilefd / libc abstractions of the route model. '
-              'Not covered by a theorem: DNS (ask_dnsmx and its priorities), the glue getmxlist() -> main() -> connect_mx() (greeting / EHLO handling; only the '
-              'statement order of main() is checked by the translator), the smtproutes.d keys other than relay/port, a whole-program Qremote run.')
+              'Not covered by a theorem: connect_mx() (greeting / EHLO / TLS handling; a failed greeting is just another tryconn call), the statement order of main() '
+              '(checked by the translator and repeated in the harness, main() cannot be included), the "[address]" target form, the smtproutes.d keys other than relay/port, '
+              'a whole-program Qremote run.')
 TECHNIQUE = ('Coq proofs by induction over the lists (insertion-sort invariant with a numeric key, representation invariant of the USED/CURRENT marks, '
              'fuel-bounded probe loop against the list of documented names); translator-regenerated constants; model-vs-C differential run')
 DESIGN_REF = 'DESIGN.md section 5, C20; finding F-C20-1 in section 7'
